@@ -18,6 +18,7 @@ package stores
 //   stale-entries          an entry that the documented cleanup deltas remove is still stored
 //   wrong-value            a single-value read returns something else than the last value put
 //   unadmitted-estimation / unadmitted-result   a put was accepted without the required membership+witness
+//   audit-from-non-ir      an audit result whose recorded key is not a current Inner Ring member was accepted (whoever signed)
 //   failed-call-effect     a FAULTed invocation changed the store
 //   listed-id-unreadable   an id that listContainerSizes hands out for a stored estimation is refused by getContainerSize
 //   wrong-estimation       getContainerSize(listed id) names another container than the one the id was listed for
@@ -465,9 +466,13 @@ func (m *monitor) observe(line, sig, method string, args []string, o *outcome, f
 			return
 		}
 		from := hx.Hex(key)
-		if !m.ir[from] || !sigHas(sig, from) {
-			m.v("audit.put", "unadmitted-result", fmt.Sprintf("result from %s accepted; Inner Ring member: %v, witnessed by it: %v; signers %s",
-				from, m.ir[from], sigHas(sig, from), sig))
+		if !m.ir[from] {
+			// "audit results only from Inner Ring members": the key recorded in the result, whoever signed
+			m.v("audit.put", "audit-from-non-ir", fmt.Sprintf("result reported under key %s accepted and stored, but this key is not a current Inner Ring member; signers %s",
+				from, sig))
+		} else if !sigHas(sig, from) {
+			m.v("audit.put", "unadmitted-result", fmt.Sprintf("result from Inner Ring member %s accepted without the witness of this key; signers %s",
+				from, sig))
 		}
 		k := audKey{epoch.String(), hx.Hex(cid), from}
 		m.aud[k] = hx.UnHex(args[0])
